@@ -286,10 +286,11 @@ def one(rec, R, nd, det, abn, orders, text, doc, max_leaves, exhaustive):
     # an abandoned traversal of the same query text on the same environment must not leak into the runs that follow
     try:
         CH.rand = _random.Random(R.getrandbits(32))
-        other = [[["x"], {"y": [1]}], {"z": [[2]]}]
+        other = [[["x"], {"y": [1], "a": {"a": 1}}], {"z": [[2]], "a": [0, {"a": [3]}]}, [[[4]]]]
         nd.find_one(text, other)
         it = iter(nd.finditer(text, other))
-        next(it, None)
+        for _ in range(R.randint(1, 6)):   # far enough for the traversal to have pending work
+            next(it, None)
         del it
     except Exception:  # noqa: BLE001
         pass
@@ -324,7 +325,7 @@ def one(rec, R, nd, det, abn, orders, text, doc, max_leaves, exhaustive):
         rec.violation("raises-" + err[1], wit)
         return
     # validity
-    base_ms = sorted(base)
+    base_ms = sorted(base, key=repr)
     for r in results:
         if permitted is not None:
             rec.monitor("M-validity-membership")
@@ -333,7 +334,7 @@ def one(rec, R, nd, det, abn, orders, text, doc, max_leaves, exhaustive):
                 return
         else:
             rec.monitor("M-validity-multiset")
-            if sorted(r) != base_ms:
+            if sorted(r, key=repr) != base_ms:
                 rec.violation("not-a-permutation-of-the-deterministic-result", dict(wit, observed_ordering=jsonable(r), deterministic=jsonable(base)))
                 return
     # exhaustiveness
@@ -363,17 +364,17 @@ def one(rec, R, nd, det, abn, orders, text, doc, max_leaves, exhaustive):
                 return
             regress = missing & model
             if regress:
-                rec.violation("ordering-of-the-documented-algorithm-never-produced", dict(wit, missing_example=jsonable(sorted(regress)[0]), missing=len(regress),
+                rec.violation("ordering-of-the-documented-algorithm-never-produced", dict(wit, missing_example=jsonable(sorted(regress, key=repr)[0]), missing=len(regress),
                                                                                           observed_orderings=len(results), permitted_orderings=len(permitted)))
             else:
-                rec.violation("queue-traversal-not-exhaustive", dict(wit, missing_example=jsonable(sorted(missing)[0]), missing=len(missing),
+                rec.violation("queue-traversal-not-exhaustive", dict(wit, missing_example=jsonable(sorted(missing, key=repr)[0]), missing=len(missing),
                                                                      observed_orderings=len(results), permitted_orderings=len(permitted)))
         else:
             rec.feat("exhaustiveness:all-permitted-orderings-produced")
 
 
 def classify_invalid(r, base):
-    if sorted(r) != sorted(base):
+    if sorted(r, key=repr) != sorted(base, key=repr):
         return "not-a-permutation-of-the-deterministic-result"
     return "ordering-not-permitted"
 
